@@ -1,84 +1,221 @@
 """C11 - Verbatim text and mathematics pass through character-for-character.
 
-R11.1 verbatim protocol ordering, R11.2 verbatim category table, R11.3 both end
-patterns handled alike, R11.4 no substitutions initiated in verbatim/math
-(= R7.5), R11.5 the end scan tests the tail of the collected tokens on every
-token, R11.6 the \\verb delimiter is the token as read, R11.7 the math-shift
-tracker is a stack (box arguments push and pop their own sentinel),
-R11.8 source reconstruction is linear (every argument and every child
-contributes its source exactly once, in order)."""
+R11.1 the verbatim scan interpreted on scripted character streams (protocol order, end markers, partial end markers),
+R11.2 verbatim category table, R11.4 no substitutions initiated in verbatim/math (= R7.5), R11.6 the \\verb scan on scripted
+streams, R11.7 the math-shift tracker is a stack, R11.8 source reconstruction interpreted on DOM heaps (every argument and
+every child contributes its source exactly once, in order)."""
 import ast
 import re
 
+from .. import absint as A
 from .. import flow
 from .. import model as M
 from ..report import AnalysisError, need
 from ..util import text
+from . import domheap as D
 
 
 def check(chk):
     m = chk.model
     r111(chk, m)
     r112(chk, m)
-    r113_5(chk, m)
     from . import c07
     c07.r75(chk, m)
     r116(chk, m)
     r117(chk, m)
     r118(chk, m)
+    r119(chk, m)
     chk.decline('token-for-token equality of the reconstructed math source with the author\'s formula for every formula '
                 '(composition of per-node source properties over arbitrary trees is a runtime value)')
 
 
-def order_transfer(events):
-    """transfer that records the first occurrence order of named calls."""
-    def transfer(n, v):
-        if isinstance(n, ast.Call):
-            nm = M.call_name(n)
-            for key, rx in events:
-                if re.search(rx, nm) and key not in v:
-                    return v + (key,)
-        return v
-    return transfer
+class VerbHooks(D.DomHooks):
+    """Verbatim scans on the DOM heap: the TeX object is a token stream, context operations are events stamped with the
+    number of tokens consumed so far, switching to verbatim codes replaces the category table of the scripted context."""
+
+    def _classes(self, v):
+        if isinstance(v, M.ClassInfo):
+            return [v]
+        if isinstance(v, (tuple, list)) and v and all(isinstance(x, M.ClassInfo) for x in v):
+            return list(v)
+        return None
+
+    def call(self, interp, node, fname, args, kwargs, state):
+        if fname == 'isinstance' and len(args) == 2 and self._classes(args[1]) is not None:
+            c = None
+            if isinstance(args[0], A.Obj):
+                c = args[0].cls
+            elif isinstance(args[0], A.TextObj):
+                c = args[0].attrs.get('__cls')
+            elif args[0] is None or isinstance(args[0], (str, int, list, dict)):
+                return False
+            if isinstance(args[0], (A.Obj, A.TextObj)):
+                if isinstance(c, M.ClassInfo):
+                    mro = self.model.mro(c)
+                    return any(k in mro for k in self._classes(args[1]))
+                return False
+        ev = state.env.setdefault('__events', [])
+        tex = state.env.get('tex')
+        used = tex.pos if isinstance(tex, A.Stream) else -1
+        mo = re.search(r'\.context\.(pop|push|setVerbatimCatcodes)$', fname)
+        if mo:
+            ev.append((mo.group(1), used))
+            if mo.group(1) == 'setVerbatimCatcodes':
+                ctx = state.env.get('__ctx')
+                if isinstance(ctx, A.Obj):
+                    ctx.attrs['categories'] = [''] * 16
+            return A.NONE
+        if isinstance(node.func, ast.Attribute):
+            attr = node.func.attr
+            recv_name = node.func.value.id if isinstance(node.func.value, ast.Name) else None
+            if attr in ('preArgument', 'postArgument', 'preParse', 'postParse') and recv_name == 'self':
+                ev.append((attr, used))       # counter / label events around the arguments: not part of the source
+                return A.NONE
+            if attr == 'parse' and recv_name == 'self' and len(args) == 1:
+                ev.append(('parse', used))
+                return A.NONE
+            if attr == 'invoke' and len(args) == 1 and recv_name is not None and recv_name != 'self':
+                recv = state.env.get(recv_name)
+                if isinstance(recv, A.Obj):
+                    ev.append(('invoke:%s' % recv.attrs.get('nodeName'), used))
+                    return A.NONE
+            recv = state.env.get(recv_name) if recv_name else None
+            if isinstance(recv, A.Stream):
+                if attr == 'pushToken' and len(args) == 1:
+                    recv.push(args[0])
+                    return A.NONE
+                if attr == 'pushTokens' and len(args) == 1 and isinstance(args[0], (list, tuple)):
+                    for x in reversed(list(args[0])):
+                        recv.push(x)
+                    return A.NONE
+                if attr == 'readArgumentAndSource':
+                    k = state.env.get('__nargs', 0)
+                    state.env['__nargs'] = k + 1
+                    ev.append(('read:%s' % kwargs.get('name'), used))
+                    return (A.Obj('value%d' % k, {}), '{src%d}' % k)
+        if fname in ('Other', 'Tokenizer.Other') and len(args) == 1 and isinstance(args[0], str):
+            return A.TextObj(str(args[0]), label='Other(%s)' % args[0], __cls=self.model.cls('plasTeX.Tokenizer', 'Other'), nodeType=D.TEXT, __eqkey=('tok', 12, str(args[0])), catcode=12,
+                             isElementContentWhitespace=False, parentNode=None, ownerDocument=None)
+        return D.DomHooks.call(self, interp, node, fname, args, kwargs, state)
+
+
+def vrun(m, fn, env, cls, filt=None, max_iter=12):
+    h = VerbHooks(m, cls)
+    if filt is not None:
+        h.should_inline = filt
+    it = A.Interp(model=m, scope=fn, hooks=h, max_iter=max_iter, exc_edges=False, inline=14, heap=True, precise_exc=True, max_states=20000)
+    outs = it.run_function(fn, env=env)
+    if it.imprecise:
+        raise D.Imprecise('; '.join(sorted(set(it.imprecise))[:3]))
+    if it.unknown_branches:
+        raise D.Imprecise('the outcome of a test is not determined on this heap: ' + '; '.join(sorted(set(it.unknown_branches))[:3]))
+    return outs
+
+
+def chars(d, s):
+    """character tokens as the tokenizer makes them under verbatim codes: letters are Letter tokens, everything else Other;
+    two tokens are equal when category and character agree (Token.__eq__), a token equals a plain string by its character"""
+    T = d.m.cls('plasTeX.Tokenizer', 'Letter'), d.m.cls('plasTeX.Tokenizer', 'Other')
+    out = []
+    for c in s:
+        letter = c.isalpha()
+        out.append(A.TextObj(c, label=c, __cls=T[0] if letter else T[1], __eqkey=('tok', 11 if letter else 12, c), nodeType=D.TEXT, catcode=11 if letter else 12,
+                             isElementContentWhitespace=not c.strip(), parentNode=None, ownerDocument=d.doc, attributes=None, nodeName='#text'))
+    return out
+
+
+def show(x, me=None):
+    if x is me and me is not None:
+        return 'self'
+    if isinstance(x, A.TextObj):
+        return str(x) if str(x).strip() else {' ': 'SP', '\n': 'NL', '\t': 'TAB'}.get(str(x), repr(str(x)))
+    if isinstance(x, A.Obj):
+        return '<%s>' % (x.attrs.get('nodeName') or x.label)
+    if isinstance(x, str):
+        return x
+    return repr(x)
+
+
+def verb_scene(m, cls, name, mode, currenvir, body):
+    d = D.Dom(m)
+    Macro = m.cls('plasTeX', 'Macro')
+    ctx = A.Obj('context', {'categories': ['\\', '{', '}', '$', '&', '\n', '#', '^', '_', '\x00', ' ', 'abc', '', '~', '%', '\x7f'], 'currenvir': currenvir})
+    d.doc.attrs['context'] = ctx
+    parent = d.elem('parent')
+    me = d.elem('self', parent=parent)
+    me.cls = cls
+    me.attrs.update(nodeName=name, macroMode=m.class_const(Macro, mode), attributes={}, argSource='')
+    tex = A.Stream(chars(d, body))
+    return {'self': me, 'tex': tex, '__ctx': ctx, '__me': me, '__parent': parent}
 
 
 def r111(chk, m):
-    R = chk.rule('R11.1', 'verbatim protocol: own frame pushed, arguments parsed, verbatim category codes installed - in this order '
-                 'and before the scan; on every end-pattern path the frame is popped before the end token is re-inserted; the '
-                 'escape and brace characters of the end pattern are read before the switch', 4)
-    ev = [('push', r'context\.push$'), ('parse', r'^self\.parse$'), ('verbcodes', r'setVerbatimCatcodes$')]
-    for mod, q in (('plasTeX', 'VerbatimEnvironment.invoke'), ('plasTeX.Base.LaTeX.Verbatim', 'verb.invoke')):
-        fn = m.func(mod, q)
-        chk.analysed(fn)
-        normal, raised = flow.function_exits(fn.node, (), order_transfer(ev))
-        seqs = {v for v in normal if v}
-        chk.verdict(R, '%s: push, parse, verbatim codes' % q, seqs == {('push', 'parse', 'verbcodes')},
-                    '%s reaches its exits with the protocol steps in the orders %s; required: push the frame, parse the arguments, '
-                    'then install the verbatim category codes' % (q, sorted(normal)), chk.where(fn), str(sorted(seqs)))
-    fn = m.func('plasTeX', 'VerbatimEnvironment.invoke')
-    # characters of the end pattern read before the switch
-    reads = [n.lineno for n in M.walk_no_nested(fn.node) if isinstance(n, ast.Assign) and re.search(r'context\.categories\[\d+\]\[0\]', text(n.value))]
-    sw = [c.lineno for c in M.calls_in(fn.node) if M.call_name(c).endswith('setVerbatimCatcodes')]
-    chk.verdict(R, 'escape/brace characters read before the switch', len(reads) == 3 and sw and max(reads) < min(sw),
-                'the escape, begin-group and end-group characters must be read from the category table before it is replaced', chk.where(fn))
-    # on each end-pattern arm: pop precedes pushTokens
-    loops = [n for n in M.walk_no_nested(fn.node) if isinstance(n, ast.For) and text(n.iter) == 'tex']
-    need(len(loops) == 1, 'VerbatimEnvironment.invoke: scan loop not found')
-    arms = [n for n in ast.walk(loops[0]) if isinstance(n, ast.If) and re.search(r'tokens\[-endlength2?:\] == endpattern2?', text(n.test))]
-    ok = len(arms) == 2
-    for a in arms:
-        calls = [(c.lineno, M.call_name(c)) for c in ast.walk(a) if isinstance(c, ast.Call)]
-        pops = [l for l, nm in calls if nm.endswith('context.pop')]
-        push = [l for l, nm in calls if nm == 'tex.pushTokens']
-        inv = [l for l, nm in calls if nm == 'end.invoke']
-        ok = ok and len(pops) == 1 and len(push) == 1 and pops[0] < push[0] and (not inv or pops[0] < inv[0]) and isinstance(a.body[-1], ast.Break)
-    chk.verdict(R, 'end-pattern arms pop the frame before re-inserting the end token', ok,
-                'each end-pattern arm must pop the verbatim frame, then create/expand the end token and push it back, then leave the scan', chk.where(fn))
+    R = chk.rule('R11.1', 'the verbatim scan interpreted on scripted character streams: the frame is pushed, the arguments parsed and '
+                 'the verbatim codes installed before the first character is read; every character up to the end marker is returned, '
+                 'in order (partial end markers, backslashes and braces included); the frame is popped and the end token re-inserted '
+                 'exactly at the end marker - for \\end{name} and for \\endname', 8)
+    VE = m.cls('plasTeX', 'VerbatimEnvironment')
+    fn = m.find_method(VE, 'invoke')
+    chk.analysed(fn)
+    E = '\\'
+    cases = [('a body ended by \\end{verbatim}', 'verbatim', 'MODE_BEGIN', 'verbatim', 'ab' + E + 'end{verbatim}xy', 'ab', 'xy'),
+             ('special characters in the body', 'verbatim', 'MODE_BEGIN', 'verbatim', 'a%{ $' + E + '}\n  b' + E + 'end{verbatim}', 'a%{ $' + E + '}\n  b', ''),
+             ('a partial end marker in the body', 'verbatim', 'MODE_BEGIN', 'verbatim', E + 'end{verb}' + E + 'end' + E + 'end{verbatim}z', E + 'end{verb}' + E + 'end', 'z'),
+             ('a backslash right before the end marker', 'verbatim', 'MODE_BEGIN', 'verbatim', 'a' + E + E + 'end{verbatim}', 'a' + E, ''),
+             ('an environment invoked under another name', 'verbatim', 'MODE_BEGIN', 'myverb', 'a' + E + 'end{verbatim}b' + E + 'end{myverb}c', 'a' + E + 'end{verbatim}b', 'c'),
+             ('the command form ended by \\endverbatim', 'verbatim', 'MODE_NONE', None, 'ab' + E + 'end{x}' + E + 'endverbatim q', 'ab' + E + 'end{x}', ' q'),
+             ('an empty body', 'verbatim', 'MODE_BEGIN', 'verbatim', E + 'end{verbatim}r', '', 'r'),
+             ('a body that mentions the begin of its own environment', 'verbatim', 'MODE_BEGIN', 'verbatim', 'x' + E + 'begin{verbatim}y' + E + 'end{verbatim}z' + E + 'end{verbatim}',
+              'x' + E + 'begin{verbatim}y', 'z' + E + 'end{verbatim}'),
+             ('the starred environment', 'verbatim*', 'MODE_BEGIN', 'verbatim*', 'a*' + E + 'end{verbatim}' + E + 'end{verbatim*}s', 'a*' + E + 'end{verbatim}', 's')]
+    for label, name, mode, cur, body, want_body, want_left in cases:
+        env = verb_scene(m, VE, name, mode, cur, body)
+        endname = cur if (mode != 'MODE_NONE' and cur is not None) else name
+        marker_end = len(body) - len(want_left)
+
+        def fmt(s, v):
+            me = s.env['__me']
+            ev = s.env.get('__events', [])
+            pre = ' '.join(e[0] for e in ev if e[1] == 0)
+            post = ' '.join('%s@%d' % e for e in ev if e[1] != 0)
+            toks = ' '.join(show(x, me) for x in v) if isinstance(v, list) else repr(v)
+            left = s.env['tex'].items[s.env['tex'].pos:]
+            lt = []
+            for x in left:
+                if isinstance(x, A.Obj):
+                    lt.append('<%s parent=%s mode=%s>' % (x.attrs.get('nodeName'), D.label_of(x.attrs.get('parentNode')) if x.attrs.get('parentNode') is not None else None,
+                                                          x.attrs.get('macroMode')))
+                else:
+                    lt.append(show(x))
+            return 'before the first character: %s | returned: %s | then: %s | stream: %s' % (pre, toks, post, ' '.join(lt))
+        END = m.class_const(m.cls('plasTeX', 'Macro'), 'MODE_END')
+        d2 = D.Dom(m)
+        want = 'before the first character: push parse setVerbatimCatcodes | returned: %s | then: pop@%d invoke:%s@%d | stream: %s' % (
+            ' '.join(['self'] + [show(x) for x in chars(d2, want_body)]), marker_end, endname, marker_end,
+            ' '.join(['<%s parent=parent mode=%s>' % (endname, END)] + [show(x) for x in chars(d2, want_left)]))
+        try:
+            outs = vrun(m, fn, env, VE, max_iter=len(body) + 4)
+        except D.Imprecise as e:
+            chk.undecided(R, label, str(e), chk.where(fn))
+            continue
+        got = {fmt(s, v) for kind, s, v in outs if kind == 'return'} | {'raises %s' % (v,) for kind, s, v in outs if kind == 'raise'}
+        chk.decide(R, label, got, {want}, 'verbatim scan of %r: %s; expected %s' % (body, sorted(got), want), chk.where(fn), want)
+    # the end of the environment does nothing
+    env = verb_scene(m, VE, 'verbatim', 'MODE_END', 'verbatim', 'xy')
+    try:
+        outs = vrun(m, fn, env, VE)
+        got = {'returns %r events %s consumed %d' % (v, s.env.get('__events', []), s.env['tex'].pos) for kind, s, v in outs}
+        chk.decide(R, 'the end token of the environment', got, {'returns None events [] consumed 0'},
+                   'invoked as the end of the environment the scan must do nothing: %s' % sorted(got), chk.where(fn))
+    except D.Imprecise as e:
+        chk.undecided(R, 'the end token of the environment', str(e), chk.where(fn))
 
 
 def r112(chk, m):
-    R = chk.rule('R11.2', 'verbatim category table: every class empty except letters; installed as a copy in the innermost frame', 2)
+    R = chk.rule('R11.2', 'verbatim category table: every class empty except letters; setVerbatimCatcodes puts a copy of it in force in '
+                 'the innermost frame only (decided on the context heap shared with C04)', 2)
     from .c01 import module_env
+    from . import c04
     tokmod = m.module('plasTeX.Tokenizer')
     env = module_env(m, tokmod, ['VERBATIM_CATEGORIES'])
     v = env.get('VERBATIM_CATEGORIES')
@@ -86,66 +223,89 @@ def r112(chk, m):
     chk.verdict(R, 'VERBATIM_CATEGORIES', ok, 'VERBATIM_CATEGORIES must be empty everywhere except LETTER: %r' % (v,), chk.where(tokmod))
     sv = m.func('plasTeX.Context', 'Context.setVerbatimCatcodes')
     chk.analysed(sv)
-    a = [n for n in M.walk_no_nested(sv.node) if isinstance(n, ast.Assign)]
-    ok = len(a) == 1 and text(a[0].value) == 'VERBATIM_CATEGORIES[:]' and sorted(text(t) for t in a[0].targets) == ['self.categories', 'self.contexts[-1].categories']
-    chk.verdict(R, 'setVerbatimCatcodes installs a copy in the innermost frame', ok,
-                'setVerbatimCatcodes must assign a copy of the table to contexts[-1].categories and self.categories: %s' % [text(x) for x in a], chk.where(sv))
-
-
-def r113_5(chk, m):
-    R3 = chk.rule('R11.3', 'both end patterns (\\end{name} and \\endname) are handled by the same sequence of steps', 1)
-    R5 = chk.rule('R11.5', 'the end of a verbatim environment is found by comparing the tail of the collected tokens with the end '
-                  'pattern after every token (no separate matching state that can get out of step)', 2)
-    fn = m.func('plasTeX', 'VerbatimEnvironment.invoke')
-    loops = [n for n in M.walk_no_nested(fn.node) if isinstance(n, ast.For) and text(n.iter) == 'tex']
-    loop = loops[0]
-    arms = [n for n in ast.walk(loop) if isinstance(n, ast.If) and re.search(r'tokens\[-endlength2?:\] == endpattern2?', text(n.test))]
-    def norm_arm(a):
-        return [re.sub(r'endlength2|endpattern2', lambda mo: mo.group(0)[:-1], text(s)) for s in a.body]
-    ok = len(arms) == 2 and norm_arm(arms[0]) == norm_arm(arms[1])
-    chk.verdict(R3, 'VerbatimEnvironment.invoke end arms agree', ok,
-                'the two end-pattern arms differ: %s' % ([norm_arm(a) for a in arms]), chk.where(fn))
-    # R11.5: the loop body is: append; guarded tail comparison x2 - no other state
-    body = loop.body
-    ok_first = isinstance(body[0], ast.Expr) and text(body[0].value) == 'tokens.append(tok)'
-    conds = [text(n.test) for n in ast.walk(loop) if isinstance(n, ast.If)]
-    allowed = {'len(tokens) >= endlength', 'len(tokens) >= endlength2', 'tokens[-endlength:] == endpattern', 'tokens[-endlength2:] == endpattern2', 'res is None'}
-    extra = sorted(set(conds) - allowed)
-    state = [text(n) for n in ast.walk(loop) if isinstance(n, (ast.Assign, ast.AugAssign)) and
-             text(n.targets[0] if isinstance(n, ast.Assign) else n.target) not in ('tokens', 'end', 'end.parentNode', 'end.macroMode', 'res')]
-    chk.verdict(R5, 'every token is appended, then the tail is compared', ok_first and not extra and not state,
-                'the scan keeps extra matching state (%s) or tests (%s): a partial end marker or a backslash right before the real '
-                'end marker can make it miss the end and swallow the rest of the document' % (state, extra), chk.where(fn, loop))
-    pats = {text(n.targets[0]): text(n.value) for n in M.walk_no_nested(fn.node) if isinstance(n, ast.Assign) and text(n.targets[0]) in ('endpattern', 'endpattern2', 'endlength', 'endlength2')}
-    ok = pats.get('endpattern') == "list('%send%s%s%s' % (escape, bgroup, name, egroup))" and pats.get('endpattern2') == "list('%send%s' % (escape, name))" \
-        and pats.get('endlength') == 'len(endpattern)' and pats.get('endlength2') == 'len(endpattern2)'
-    chk.verdict(R5, 'end patterns are \\end{name} and \\endname in the current category characters', ok, 'end patterns: %s' % pats, chk.where(fn))
+    res = []
+    for nfr, sharing in ((1, 'G'), (2, 'GG'), (2, 'GS'), (3, 'GSS')):
+        res += c04.cow_outcomes(m, sv, {}, nfr, sharing)
+    need(res, 'setVerbatimCatcodes has no normal exit')
+    got = set()
+    for ps, cur, s in res:
+        orig = s.env.get('__mod_VERBATIM_CATEGORIES_orig')
+        if ps:
+            got.update(ps)
+        elif not isinstance(cur, list) or orig is None:
+            got.add('TOP')
+        elif tuple(cur) != tuple(orig):
+            got.add('another table is in force')
+        else:
+            got.add('the verbatim table, in the innermost frame only')
+    chk.decide(R, 'setVerbatimCatcodes installs a copy in the innermost frame', got, {'the verbatim table, in the innermost frame only'},
+               'after setVerbatimCatcodes: %s' % sorted(got), chk.where(sv))
 
 
 def r116(chk, m):
-    R = chk.rule('R11.6', '\\verb: the delimiter is the first token as read (any character, letters included; only a begin-group is '
-                 'mapped to the closing brace) and the scan ends at the first token equal to it; digest stops at the same token', 2)
-    fn = m.func('plasTeX.Base.LaTeX.Verbatim', 'verb.invoke')
+    R = chk.rule('R11.6', '\\verb interpreted on scripted streams: the delimiter is the first token as read (any character, letters '
+                 'included; a begin-group stands for the closing brace), everything up to its next occurrence is returned in order and '
+                 'nothing beyond is read; digest keeps exactly the tokens between the delimiters', 7)
+    V = m.cls('plasTeX.Base.LaTeX.Verbatim', 'verb')
+    fn = m.find_method(V, 'invoke')
+    dg = m.find_method(V, 'digest')
     chk.analysed(fn)
-    asg = [(text(n.targets[-1]), text(n.value)) for n in M.walk_no_nested(fn.node) if isinstance(n, ast.Assign) and any(text(t) == 'endpattern' for t in n.targets)]
-    loops = [n for n in M.walk_no_nested(fn.node) if isinstance(n, ast.For)]
-    first = [l for l in loops if text(l.target) == 'endpattern']
-    ok = len(first) == 1 and all(v == "Other('}')" for t, v in asg)
-    from .c06 import guard_chain
-    for n in M.walk_no_nested(fn.node):
-        if isinstance(n, ast.Assign) and any(text(t) == 'endpattern' for t in n.targets):
-            ok = ok and guard_chain(fn.node, n) == ['isinstance(endpattern, bgroup)']
-    scan = [l for l in loops if text(l.target) == 'tok']
-    ok2 = len(scan) == 1 and any(isinstance(x, ast.If) and text(x.test) == 'tok == endpattern' and isinstance(x.body[0], ast.Break) for x in scan[0].body)
-    chk.verdict(R, 'verb.invoke delimiter', ok and ok2,
-                'the \\verb delimiter must be the token read from the input (re-assigned only for a begin-group): %s; coercing it to '
-                'another token class makes letter delimiters (\\verb xabcx) never match' % asg, chk.where(fn))
-    dg = m.func('plasTeX.Base.LaTeX.Verbatim', 'verb.digest')
     chk.analysed(dg)
-    src = text(dg.node)
-    ok = 'endpattern = next(iter(tokens))' in src and 'if tok == endpattern: break' in src.replace('\n', ' ').replace('    ', ' ').replace('  ', ' ') or \
-        ('endpattern = next(iter(tokens))' in src and any(isinstance(x, ast.If) and text(x.test) == 'tok == endpattern' for x in ast.walk(dg.node)))
-    chk.verdict(R, 'verb.digest stops at the delimiter', ok, 'verb.digest must take the delimiter from the stream and stop at its second occurrence', chk.where(dg))
+    E = '\\'
+    cases = [('| as delimiter', '|a b|xy', '| a SP b |', 'x y', '|'), ('a letter as delimiter', 'xabcxyz', 'x a b c x', 'y z', 'x'),
+             ('special characters between the delimiters', '+' + E + '{%$ }+q', '+ ' + E + ' { % $ SP } +', 'q', '+'),
+             ('empty content', '!!r', '! !', 'r', '!'), ('a blank as part of the content', '= =t', '= SP =', 't', '=')]
+    for label, body, want_toks, want_left, delim in cases:
+        env = verb_scene(m, V, 'verb', 'MODE_NONE', None, body)
+
+        def fmt(s, v):
+            me = s.env['__me']
+            ev = s.env.get('__events', [])
+            pre = ' '.join(e[0] for e in ev if e[1] == 0)
+            post = ' '.join('%s@%d' % e for e in ev if e[1] != 0)
+            return 'before the first character: %s | returned: %s | then: %s | stream: %s | delimiter: %s' % (
+                pre, ' '.join(show(x, me) for x in v) if isinstance(v, list) else repr(v), post,
+                ' '.join(show(x) for x in s.env['tex'].items[s.env['tex'].pos:]), show(me.attrs.get('delimiter')))
+        want = 'before the first character: push parse setVerbatimCatcodes | returned: self %s | then: pop@%d | stream: %s | delimiter: %s' % (
+            want_toks, len(body) - len(want_left.split()), want_left, delim)
+        try:
+            outs = vrun(m, fn, env, V, max_iter=len(body) + 4)
+        except D.Imprecise as e:
+            chk.undecided(R, 'verb.invoke: ' + label, str(e), chk.where(fn))
+            continue
+        got = {fmt(s, v) for kind, s, v in outs if kind == 'return'} | {'raises %s' % (v,) for kind, s, v in outs if kind == 'raise'}
+        chk.decide(R, 'verb.invoke: ' + label, got, {want}, '\\verb scan of %r: %s; expected %s' % (body, sorted(got), want), chk.where(fn), want)
+    # a begin-group delimiter
+    env = verb_scene(m, V, 'verb', 'MODE_NONE', None, 'ab}c')
+    d = D.Dom(m)
+    bg = d.elem('bgroup')
+    bg.cls = m.cls('plasTeX.Base.TeX.Text', 'bgroup')
+    env['tex'].items.insert(0, bg)
+    try:
+        outs = vrun(m, fn, env, V, max_iter=10)
+        got = {'%s | %s | %s' % (' '.join(show(x, s.env['__me']) for x in v) if isinstance(v, list) else repr(v),
+                                 ' '.join(show(x) for x in s.env['tex'].items[s.env['tex'].pos:]), show(s.env['__me'].attrs.get('delimiter')))
+               for kind, s, v in outs if kind == 'return'} | {'raises %s' % (v,) for kind, s, v in outs if kind == 'raise'}
+        chk.decide(R, 'verb.invoke: a group as delimiter', got, {'self } a b } | c | }'}, '\\verb{ab}c: %s' % sorted(got), chk.where(fn))
+    except D.Imprecise as e:
+        chk.undecided(R, 'verb.invoke: a group as delimiter', str(e), chk.where(fn))
+    # digest
+    for label, body, want_kids, want_left in (('content between the delimiters', '|ab|cd', 'a b', 'c d'), ('empty content', '!!r', '', 'r'),
+                                             ('a letter as delimiter', 'xabxx', 'a b', 'x')):
+        d = D.Dom(m)
+        me = d.elem('self')
+        me.cls = V
+        st = A.Stream(chars(d, body))
+        try:
+            outs = vrun(m, dg, {'self': me, 'tokens': st, '__me': me}, V, max_iter=10)
+        except D.Imprecise as e:
+            chk.undecided(R, 'verb.digest: ' + label, str(e), chk.where(dg))
+            continue
+        got = {'children: %s | stream: %s' % (' '.join(show(x) for x in D.children(s.env['__me']) or []),
+                                             ' '.join(show(x) for x in s.env['tokens'].items[s.env['tokens'].pos:]))
+               for kind, s, v in outs if kind == 'return'} | {'raises %s' % (v,) for kind, s, v in outs if kind == 'raise'}
+        chk.decide(R, 'verb.digest: ' + label, got, {'children: %s | stream: %s' % (want_kids, want_left)},
+                   'verb.digest of %r: %s' % (body, sorted(got)), chk.where(dg))
 
 
 def r117(chk, m):
@@ -171,33 +331,194 @@ def r117(chk, m):
                 'BoxCommand.parse manipulates MathShift.inEnv as %s; it must push its sentinel, parse, and pop the last entry - '
                 'removing by value takes the sentinel of an enclosing box, so the $ that closes a formula inside nested boxes opens a new one'
                 % sorted(normal), chk.where(fn))
+    # the text boxes of LaTeX (confirmed on the reference tree): each parses its argument under its own sentinel and in text mode
+    R2 = chk.rule('R11.7b', 'every text box that can stand inside a formula (\\mbox, \\hbox, \\vbox and the \\text.. font commands) parses its '
+                  'argument under its own math-shift sentinel and is not in math mode, so that a $ inside the box opens a formula '
+                  'instead of closing the enclosing one', 13)
+    verdicts = {}
+    for name in TEXT_BOXES:
+        cands = [c for c in m.all_classes if c.module.name.startswith('plasTeX.Base.') and (c.name == name or m.class_const(c, 'macroName', None) == name)
+                 and c.outer is None]
+        need(cands, 'the class of \\%s was not found in plasTeX.Base' % name)
+        for c in cands:
+            pf = m.find_method(c, 'parse')
+            need(pf is not None, '%s.parse not resolved' % c.fullname)
+            if pf.fullname not in verdicts:
+                chk.analysed(pf)
+                nrm, _ = flow.function_exits(pf.node, (), tr)
+                verdicts[pf.fullname] = nrm
+            nrm = verdicts[pf.fullname]
+            mm = m.class_const(c, 'mathMode', None)
+            chk.verdict(R2, 'text box \\%s' % name, nrm == {('append(None)', 'parse', 'pop()')} and mm is False,
+                        '\\%s parses its argument through %s (math-shift tracker: %s, mathMode %r): a $ inside the box is taken as the end of '
+                        'the enclosing formula' % (name, pf.fullname, sorted(nrm), mm), chk.where(c))
+
+
+TEXT_BOXES = ('mbox', 'hbox', 'vbox', 'textmd', 'textbf', 'textrm', 'textsf', 'texttt', 'textup', 'textit', 'textsl', 'textsc', 'textnormal')
 
 
 def r118(chk, m):
-    R = chk.rule('R11.8', 'source reconstruction is linear: Macro.parse appends the source of every argument exactly once, in order; '
-                 'sourceChildren joins the source of every child in order', 3)
-    fn = m.func('plasTeX', 'Macro.parse')
-    chk.analysed(fn)
-    loops = [n for n in M.walk_no_nested(fn.node) if isinstance(n, ast.For) and text(n.iter) == 'self.arguments']
-    need(len(loops) == 1, 'Macro.parse: argument loop not found')
-    body = loops[0].body
-    srcs = [s for s in body if isinstance(s, ast.AugAssign) and text(s.target) == 'self.argSource']
-    reads = [s for s in body if isinstance(s, ast.Assign) and 'tex.readArgumentAndSource' in text(s.value)]
-    ok = len(srcs) == 1 and text(srcs[0].value) == 'source' and len(reads) == 1 and text(reads[0].targets[0]).replace(' ', '') in ('(output,source)', 'output,source') \
-        and body.index(reads[0]) < body.index(srcs[0])
-    stores = [s for s in body if isinstance(s, ast.Assign) and text(s.targets[0]) == 'self.attributes[arg.name]' and text(s.value) == 'output']
-    reset = any(isinstance(s, ast.Assign) and text(s.targets[0]) == 'self.argSource' and text(s.value) == "''" for s in fn.node.body)
-    chk.verdict(R, 'Macro.parse records every argument source once', ok and len(stores) == 1 and reset,
-                'per argument, parse must read (output, source), append source to argSource and bind attributes[name] = output, unconditionally', chk.where(fn))
+    R = chk.rule('R11.8', 'source reconstruction interpreted on DOM heaps: Macro.parse appends the source of every argument exactly '
+                 'once, in order, and binds every value under its name; sourceChildren joins the source of every child (of every '
+                 'paragraph\'s child) in order; Macro.source spells \\begin{name}args children \\end{name}, \\end{name} and \\name args '
+                 'children with each part exactly once', 12)
+    Macro = m.cls('plasTeX', 'Macro')
+    parse = m.find_method(Macro, 'parse')
+    chk.analysed(parse)
+    BEGIN, END, NONE_ = (m.class_const(Macro, k) for k in ('MODE_BEGIN', 'MODE_END', 'MODE_NONE'))
+
+    def macro(d, name, mode, argsource, kids=(), attributes=None, childlist=True):
+        me = d.elem('self', childlist=childlist)
+        me.cls = Macro
+        me.attrs.update(nodeName=name, macroMode=mode, argSource=argsource, attributes=attributes if attributes is not None else {})
+        for i, k in enumerate(kids):
+            c = d.elem('child%d' % i)
+            c.attrs['source'] = k
+            c.attrs['parentNode'] = me
+            me.attrs['_dom_childNodes'].append(c)
+        return me
+    # (a) parse
+    for label, nargs, mode in (('three arguments', 3, NONE_), ('one argument', 1, BEGIN), ('no arguments', 0, NONE_), ('the end of an environment', 2, END)):
+        d = D.Dom(m)
+        me = macro(d, 'foo', mode, 'stale')
+        me.attrs['arguments'] = [A.Obj('arg%d' % i, {'name': 'n%d' % i, 'options': {'type': 'x'} if i == 1 else {}}) for i in range(nargs)]
+        me.attrs['args'] = ' '.join('n%d' % i for i in range(nargs))
+        tex = A.Stream([])
+        try:
+            outs = vrun(m, parse, {'self': me, 'tex': tex, '__me': me}, Macro, filt=lambda fname, node, info: info is None or getattr(node, 'name', '') not in ('error', 'warning'))
+        except D.Imprecise as e:
+            chk.undecided(R, 'Macro.parse: ' + label, str(e), chk.where(parse))
+            continue
+
+        def fmt(s, v):
+            me2 = s.env['__me']
+            at = me2.attrs.get('attributes')
+            return 'argSource=%s attributes=%s reads=%s' % (me2.attrs.get('argSource'),
+                                                           ' '.join('%s:%s' % (k, D.label_of(x)) for k, x in at.items()) if isinstance(at, dict) else repr(at),
+                                                           ' '.join(e[0] for e in s.env.get('__events', []) if e[0].startswith('read:')))
+        got = {fmt(s, v) for kind, s, v in outs if kind == 'return'} | {'raises %s' % (v,) for kind, s, v in outs if kind == 'raise'}
+        if mode == END:
+            want = 'argSource=stale attributes= reads='
+        elif nargs == 0:
+            want = 'argSource=stale attributes= reads='
+        else:
+            want = 'argSource=%s attributes=%s reads=%s' % (''.join('{src%d}' % i for i in range(nargs)), ' '.join('n%d:value%d' % (i, i) for i in range(nargs)),
+                                                          ' '.join('read:n%d' % i for i in range(nargs)))
+        if nargs == 0 and mode != END:
+            # a macro without arguments keeps or clears its argument source; nothing is read
+            ok = all(g.endswith('attributes= reads=') and g.split(' ')[0] in ('argSource=stale', 'argSource=') for g in got) and got
+            if ok:
+                chk.ok(R, 'Macro.parse: ' + label, str(sorted(got)))
+                continue
+        chk.decide(R, 'Macro.parse: ' + label, got, {want}, 'Macro.parse with %d argument(s): %s; expected %s' % (nargs, sorted(got), want), chk.where(parse))
+    # (b) sourceChildren
     sc = m.module('plasTeX').functions.get('sourceChildren')
     need(sc is not None, 'sourceChildren not found')
     chk.analysed(sc)
-    src = text(sc.node)
-    ok = "''.join([x.source for x in o.childNodes])" in src
-    chk.verdict(R, 'sourceChildren joins every child source in order', ok, 'sourceChildren must join x.source over o.childNodes', chk.where(sc))
-    ms = m.cls('plasTeX', 'Macro').properties['source']['get']
+    for label, par, want in (('children in order', True, 'ABC'), ('paragraph level skipped', False, 'abcd')):
+        d = D.Dom(m)
+        if par:
+            o = macro(d, 'x', NONE_, '', kids=['A', 'B', 'C'])
+        else:
+            o = macro(d, 'x', NONE_, '')
+            for i, grand in enumerate((['a', 'b'], ['c', 'd'])):
+                p = d.elem('par%d' % i, parent=o)
+                for j, g in enumerate(grand):
+                    c = d.elem('g%d%d' % (i, j), parent=p)
+                    c.attrs['source'] = g
+                    p.attrs['_dom_childNodes'].append(c)
+                o.attrs['_dom_childNodes'].append(p)
+        try:
+            outs = vrun(m, sc, {'o': o, 'par': par}, Macro)
+        except D.Imprecise as e:
+            chk.undecided(R, 'sourceChildren: ' + label, str(e), chk.where(sc))
+            continue
+        got = {repr(v) for kind, s, v in outs if kind == 'return'} | {'raises %s' % (v,) for kind, s, v in outs if kind == 'raise'}
+        chk.decide(R, 'sourceChildren: ' + label, got, {repr(want)}, 'sourceChildren gives %s, expected %r' % (sorted(got), want), chk.where(sc))
+    d = D.Dom(m)
+    o = macro(d, 'x', NONE_, '', childlist=False)
+    try:
+        outs = vrun(m, sc, {'o': o, 'par': True}, Macro)
+        got = {repr(v) for kind, s, v in outs if kind == 'return'} | {'raises %s' % (v,) for kind, s, v in outs if kind == 'raise'}
+        chk.decide(R, 'sourceChildren: no children', got, {repr('')}, 'sourceChildren of a node without children gives %s' % sorted(got), chk.where(sc))
+    except D.Imprecise as e:
+        chk.undecided(R, 'sourceChildren: no children', str(e), chk.where(sc))
+    # (c) Macro.source
+    ms = Macro.properties['source']['get']
     chk.analysed(ms)
-    s2 = text(ms.node)
-    ok = "'%sbegin{%s}%s' % (escape, name, argSource)" in s2 and "'%s%send{%s}' % (sourceChildren(self), escape, name)" in s2 and \
-        "'%send{%s}' % (escape, name)" in s2 and "s = '%s%s%s' % (escape, name, argSource)" in s2
-    chk.verdict(R, 'Macro.source forms', ok, 'Macro.source must spell \\begin{name}args children \\end{name}, \\end{name}, and \\name args children', chk.where(ms))
+    E = '\\'
+    cases = [('an environment with arguments and children', ('tabular', BEGIN, '{ll}', ['A', 'B'], None, True), E + 'begin{tabular}{ll}AB' + E + 'end{tabular}'),
+             ('an environment without arguments', ('center', BEGIN, '', ['A', 'B'], None, True), E + 'begin{center} AB' + E + 'end{center}'),
+             ('the begin token alone', ('center', BEGIN, '', [], None, False), E + 'begin{center} '),
+             ('the end of an environment', ('center', END, '', [], None, False), E + 'end{center}'),
+             ('a command with a self argument', ('textbf', NONE_, '{x}', ['X'], {'self': 1}, True), E + 'textbf{x}'),
+             ('a command without arguments', ('alpha', NONE_, '', [], None, False), E + 'alpha '),
+             ('an argument that starts with a letter', ('foo', NONE_, 'x', [], None, False), E + 'foo x'),
+             ('a one-character command before a letter', (',', NONE_, 'x', [], None, False), E + ',x'),
+             ('an active character', ('active::~', NONE_, '', [], None, False), '~ '),
+             ('a command that absorbed children', ('section', NONE_, '[o]{t}', ['A', 'B'], {'toc': 1, 'title': 2}, True), E + 'section[o]{t}AB')]
+    for label, (name, mode, argsrc, kids, attributes, cl), want in cases:
+        d = D.Dom(m)
+        me = macro(d, name, mode, argsrc, kids=kids, attributes=attributes, childlist=cl)
+        try:
+            outs = vrun(m, ms, {'self': me}, Macro)
+        except D.Imprecise as e:
+            chk.undecided(R, 'Macro.source: ' + label, str(e), chk.where(ms))
+            continue
+        got = {repr(v) for kind, s, v in outs if kind == 'return'} | {'raises %s' % (v,) for kind, s, v in outs if kind == 'raise'}
+        chk.decide(R, 'Macro.source: ' + label, got, {repr(want)}, 'the source of %s is %s, expected %r' % (label, sorted(got), want), chk.where(ms))
+
+
+def r119(chk, m):
+    """Macros that rewrite their own argument source: only the spelling they are meant to normalise is touched."""
+    R = chk.rule('R11.9', 'macros that rewrite their recorded argument source (sized delimiters: \\left< becomes \\left\\langle) touch only '
+                 'the delimiters < and >: for every other delimiter - characters, and control sequences whose text is empty - the source '
+                 'stays what the author wrote (interpreted on the heap)', 6)
+    try:
+        ARD = m.cls('plasTeX.Base.LaTeX.Math', 'AngleReplacingDelimiter')
+    except AnalysisError:
+        ARD = None
+    need(ARD is not None, 'AngleReplacingDelimiter not found')
+    fn = m.find_method(ARD, 'invoke')
+    chk.analysed(fn)
+    cases = [('<', '\\langle '), ('>', '\\rangle '), ('(', None), ('|', None), ('.', None), ('', None), ('[', None)]
+    for ch, want in cases:
+        d = D.Dom(m)
+        me = d.elem('self')
+        me.cls = ARD
+        arg = d.elem('chararg')
+        arg.attrs['textContent'] = d.text('tc', ch)
+        me.attrs.update(attributes={'char': arg}, argSource='ORIGINAL', nodeName='left')
+        tex = A.Stream([])
+        label = 'delimiter %r' % ch if ch else 'a control-sequence delimiter without text (\\lfloor, \\rangle, ...)'
+
+        def inl(fname, node, info):
+            return info is None or getattr(node, 'name', '') not in ('invoke',) or info is fn
+        try:
+            h = VerbHooks(m, ARD)
+            base_call = h.call
+
+            def call(interp, node, fname, args, kwargs, state, base_call=base_call):
+                if isinstance(node.func, ast.Attribute) and node.func.attr == 'invoke' and len(args) == 2 and isinstance(node.func.value, ast.Name) \
+                   and node.func.value.id != 'self':
+                    return A.NONE
+                return base_call(interp, node, fname, args, kwargs, state)
+            h.call = call
+            it = A.Interp(model=m, scope=fn, hooks=h, max_iter=6, exc_edges=False, inline=14, heap=True, precise_exc=True, max_states=20000)
+            outs = it.run_function(fn, env={'self': me, 'tex': tex, '__me': me, '__arg': arg})
+            if it.imprecise:
+                raise D.Imprecise('; '.join(sorted(set(it.imprecise))[:3]))
+        except D.Imprecise as e:
+            chk.undecided(R, label, str(e), chk.where(fn))
+            continue
+
+        def fmt(s):
+            me2 = s.env['__me']
+            a = me2.attrs['attributes'].get('char') if isinstance(me2.attrs.get('attributes'), dict) else None
+            kids = D.children(a) if isinstance(a, A.Obj) else None
+            inner = 'unchanged' if a is s.env['__arg'] else ('a fragment holding %s' % [getattr(k.cls, 'name', '?') if isinstance(k, A.Obj) else repr(k) for k in (kids or [])])
+            return 'source %s, argument %s' % (me2.attrs.get('argSource'), inner)
+        got = {fmt(s) for kind, s, v in outs if kind == 'return'} | {'raises %s' % (v,) for kind, s, v in outs if kind == 'raise'}
+        w = 'source ORIGINAL, argument unchanged' if want is None else 'source %s, argument a fragment holding %s' % (want, ["langle" if ch == '<' else "rangle"])
+        chk.decide(R, label, got, {w}, 'a sized delimiter given as %s ends with %s; expected %s - the reconstructed formula names another delimiter than '
+                   'the author wrote' % (label, sorted(got), w), chk.where(fn))
